@@ -61,6 +61,7 @@ def run(ctx):
     for seg in rej:
         vlib.report(ctx, "registry state breaks the rule: %s at %s" % (seg["why"], seg["failing_event"][:700]),
                     {"begin": seg["events"][0], "tail": seg["events"][-2:]}, {"class": "trace"})
+    cc.nodelife_check(ctx, lines)
     t = cc.totals(sums)["tx_kinds"]
     unauth = sum(v for k, v in t.items() if k.endswith((":wrongsigner", ":missingsig", ":hasnodes")))
     rot = sum(1 for ln in lines if '"kind":"regnode"' in ln and '"rotate":"' in ln and '"rotate":""' not in ln)
